@@ -73,28 +73,18 @@ def walk {α} (o : Opts) (act : Node → Node → Outcome (Node × α)) (cr : Bo
     | .err _ => .notFound con
     | .ok .nil => .notFound con
     | .ok next =>
-      match (if key = [] ∧ cr then .err .invalid else intoContainer next) with
+      match intoContainer next with
       | .panic => .panic
       | .err _ => .notFound con
       | .ok child =>
-        if key = [] then
-          -- `get("")` is the root's `self` node, which is not part of the tree: whatever
-          -- happens below it stays in `self` (and is seen again by a later `get("")`)
-          match walk o act false .nil child rest with
-          | .done child' a => .doneSelf child' a
-          | .notFound child' => .notFoundSelf child'
-          | .fail e => .fail e
-          | .panic => .panic
-          | .doneSelf s a => .doneSelf s a
-          | .notFoundSelf s => .notFoundSelf s
-        else
-          match walk o act false .nil child rest with
-          | .done child' a => .done (putChild o con key child') a
-          | .notFound child' => .notFound (putChild o con key child')
-          | .fail e => .fail e
-          | .panic => .panic
-          | .doneSelf s a => .doneSelf s a
-          | .notFoundSelf s => .notFoundSelf s
+        -- (an empty token is an ordinary member name: RFC 6901)
+        match walk o act false .nil child rest with
+        | .done child' a => .done (putChild o con key child') a
+        | .notFound child' => .notFound (putChild o con key child')
+        | .fail e => .fail e
+        | .panic => .panic
+        | .doneSelf s a => .doneSelf s a
+        | .notFoundSelf s => .notFoundSelf s
 
 /-- `findObject(doc, path)` followed by `act con key` -/
 def withPath {α} (o : Opts) (r : Root) (path : Bytes)
@@ -150,12 +140,12 @@ def ensure (o : Opts) (cr : Bool) : Node → Node → List Bytes → Outcome (No
         | .err e => .err e
         | .panic => .panic
     | some t =>
-      match (if key = [] ∧ cr then .err .invalid else intoContainer t) with
+      match intoContainer t with
       | .panic => .panic
       | .err e => .err e
       | .ok child =>
         match ensure o false .nil child (nxt :: rest) with
-        | .ok (child', _) => if key = [] then .ok (con, child') else .ok (putChild o con key child', self)
+        | .ok (child', _) => .ok (putChild o con key child', self)
         | .err e => .err e
         | .panic => .panic
 
@@ -256,8 +246,6 @@ def opMove (o : Opts) (r : Root) (op : Op) : Outcome Root :=
         | .panic => .panic
         | .err e => .err e
         | .ok val =>
-          -- `get("")` is the container's own `self` node: a copy of it is moved, never the node itself
-          let val := if key = [] then (deepCopy o.esc val).1 else val
           match conRemove o con key with
           | .ok con' => .ok (con', val)
           | .err e => .err e
@@ -304,10 +292,9 @@ def opTest (o : Opts) (r : Root) (op : Op) : Outcome Root :=
         | .ok val =>
           let (b, val') := equalTo val op.value
           if b then
-            (if key = [] then .ok (con, ()) else
-              match val with
-              | .nil => .ok (con, ())
-              | _ => .ok (putChild o con key val', ()))
+            (match val with
+             | .nil => .ok (con, ())
+             | _ => .ok (putChild o con key val', ()))
           else .err .testFailed)
       (fun _ => .err .missing)
 
@@ -338,7 +325,10 @@ def opCopy (o : Opts) (r : Root) (acc : Int) (op : Op) : Outcome (Root × Int) :
       | .panic => .panic
       | .fail e => .err e
       | _ => .err .missing
-    let w1 := copySource o r frm
+    -- `from == ""`: the whole document as it is now, without a walk
+    let w1 : Walk Node :=
+      if frm = [] then (if isNullN r.con then .fail .invalid else .done r.con r.con)   -- a null root: nothing to copy
+      else copySource o r frm
     match after r w1 with
     | none => failOf w1
     | some r1 =>
